@@ -153,9 +153,42 @@ def stepMgr (line : String) : String :=
     | _ => "bad-op"
   | _ => "bad-op"
 
+/-! layout lines: `d <ss> <c1> <c2> <n> <rb> <epoch> <slot> <kind> <idx> <vsigner> <vrfT> <sealer> <layout> <pre> o=....`
+    (which pre-image the final seal signed does not concern the model: the seal oracle is the truth of
+    "valid over the header with exactly the last item removed") -/
+
+def itemOfChar (pre : Item) (c : Char) : Option Item :=
+  if c = 'P' ∨ c = 'p' then some pre
+  else if c = 'q' then some (.pre none)
+  else if c = 'c' ∨ c = 'r' then some .other
+  else if c = 'S' ∨ c = 'o' ∨ c = 'j' then some .sealItem
+  else none
+
+def stepD (f : List Nat) (layout : String) (o : Oracles) : String :=
+  match f with
+  | [ss, c1, c2, n, rb, _epoch, slot, kind, idx, _vs, _vt, _sl] =>
+    let chars := if layout = "-" then [] else layout.toList
+    match chars.mapM (itemOfChar (.pre (preOf kind idx slot))) with
+    | none => "bad-op"
+    | some digest =>
+      if digest.length > 6 then "bad-op" else
+      let m := verify H ss c1 c2 n (randOf rb) digest o
+      let a := authorised H ss c1 c2 n (randOf rb) digest o
+      if m = .ok ∧ a = false then
+        s!"{showVerdict m}\tspec=err-bad-slot-claim\tkf=secondary-kind-not-checked"
+      else if m ≠ .ok ∧ a = true then s!"{showVerdict m}\tspec=ok"
+      else showVerdict m
+  | _ => "bad-op"
+
 def step (line : String) : String :=
   match words line with
   | "mgr" :: _ => stepMgr line
+  | "d" :: rest =>
+    if rest.length ≠ 15 then "bad-op" else
+    match allNat (rest.take 12), (rest.getD 14 "").length ≥ 1, oraclesOf (rest.getD 14 "") with
+    | some f, _, some o =>
+      if f.getD 3 0 > 7 ∨ (rest.getD 13 "").toNat?.isNone then "bad-op" else stepD f (rest.getD 12 "") o
+    | _, _, _ => "bad-op"
   | "v" :: rest =>
     if rest.length ≠ 17 then "bad-op" else
     match allNat (rest.take 16), oraclesOf (rest.getD 16 "") with
